@@ -13,8 +13,11 @@ EXPLANATION = (
     "re-attachment only through the connection's storage: State::LocalReceived is built only from the Some result of "
     "AnyStorage::remove(id) on the storage handed out by PortDeserializer::storage(); ChMux::new creates one storage per "
     "connection; R20.4 release: the task spawned at first serialization ends with handle_storage.remove(id) on every "
-    "path; R20.5 lazy blob: rx.set_max_data_size(len) with the advertised length dominates rx.recv(), the fetch future is "
-    "created only when none exists, and every error of the chain is propagated. Equality of fetched data and release "
+    "path, and (R20.4b) is reached only after dropped_rx.recv() completed or, in the keep_rx.changed() arm, when the "
+    "change is the provider's drop (is_err) and the provider was not kept; R20.5 lazy blob: rx.set_max_data_size(len) with the advertised length dominates rx.recv(), the fetch future is "
+    "created only when none exists, and every error of the chain is propagated; R20.5b the None result of rx.recv() (port closed before the "
+    "data) becomes FetchError, never a default value, and the fetch cache shared by clones is emptied only by a unique "
+    "owner. Equality of fetched data and release "
     "timing across endpoints are not decided."
 )
 ASSUMPTIONS = ["std::any::Any downcasts are sound; Uuid v4 ids do not collide",
@@ -119,6 +122,53 @@ def r20_4(ck, F):
               "the watcher task can end without removing the stored entry", ser[0].loc(0))
 
 
+def r20_4b(ck, F):
+    ck.rule("R20.4b", "no premature release: in the watcher task every path to handle_storage.remove(id) passes through "
+            "the completion of dropped_rx.recv() (all remote handles gone) or, in the keep_rx.changed() arm, through both "
+            "`res.is_err()` (provider dropped) and `!*keep_rx.borrow…()` (provider not kept)",
+            "Provider::keep() (a mere change notification) after the handle was sent releases the value while a remote "
+            "handle still exists: the handle returning to its origin yields Unknown", floor=3)
+    ser = [b for k, b in F.bodies.items() if k.startswith(f"<{H}::Handle") and k.endswith("Serialize>::serialize")]
+    if not ser:
+        raise mir.AnchorMissing("Serialize for Handle")
+    tasks = [k for k in F.children.get((ser[0].crate, ser[0].dp), []) if k.kind == "coroutine" and
+             list(k.calls("chmux::any_storage::AnyStorage::remove"))]
+    if not tasks:
+        raise mir.AnchorMissing("watcher task of Serialize for Handle")
+    k = tasks[0]
+    rm = [bb for bb, t in k.calls("chmux::any_storage::AnyStorage::remove")]
+    RECV = "rch::mpsc::receiver::Receiver::recv"
+    gates = {a["ready_bb"] for a in k.awaits() if (a.get("fut_fn") or "").startswith(RECV) and a.get("ready_bb") is not None}
+    sels = select_info(k)
+    changed_arms = []
+    for s in sels:
+        for idx, arm in s["arms"].items():
+            if arm["fut"] == RECV:
+                gates.add(arm["target"])
+            elif arm["fut"] == "tokio::sync::watch::Receiver::changed":
+                changed_arms.append((s, arm))
+            else:
+                ck.bad(f"Handle::serialize#watcher-arm-{idx}", f"unexpected select branch future {arm['fut']} in the watcher task", k.loc(s["switch"]))
+    ck.expect(bool(gates), "Handle::serialize#watcher-waits-for-handles", f"{len(gates)} completion point(s) of dropped_rx.recv()",
+              "the watcher task never waits for dropped_rx.recv()", k.loc(0))
+    for s, arm in changed_arms:
+        region = k.reach([arm["target"]], avoid=[s["poll_bb"]])
+        is_err = [tb for sb, tb, m, e in switch_edges(k, lambda e: bool(mir.calls_in(e, "std::result::Result::is_err")), region) if m is True] + \
+                 [tb for sb, tb, m, e in switch_edges(k, lambda e: bool(mir.calls_in(e, "std::result::Result::is_ok")), region) if m is False] + \
+                 [tb for sb, tb, m, e in switch_edges(k, lambda e: e[0] == "discr" and "changed" in mir.show(e), region) if m == "Err"]
+        not_kept = [tb for sb, tb, m, e in switch_edges(k, lambda e: bool(mir.calls_in(e, "tokio::sync::watch::Receiver::borrow_and_update") or
+                                                                           mir.calls_in(e, "tokio::sync::watch::Receiver::borrow")), region) if m is False]
+        p1 = k.find_path([arm["target"]], rm, avoid=list(gates) + is_err + [s["poll_bb"]])
+        p2 = k.find_path([arm["target"]], rm, avoid=list(gates) + not_kept + [s["poll_bb"]])
+        ck.expect(p1 is None, "Handle::serialize#release-needs-provider-dropped", "remove(id) after keep_rx.changed() only if it returned Err",
+                  f"a change notification of the keep flag (Provider::keep) releases the stored value: path {p1}", k.loc(arm["target"]))
+        ck.expect(p2 is None, "Handle::serialize#release-needs-not-kept", "remove(id) after keep_rx.changed() only if keep is false",
+                  f"a dropped provider releases the value although it was kept: path {p2}", k.loc(arm["target"]))
+    p0 = k.find_path([0], rm, avoid=list(gates) + [arm["target"] for _, arm in changed_arms])
+    ck.expect(p0 is None, "Handle::serialize#release-only-after-wait", "no path to remove(id) that bypasses both waits",
+              f"the watcher task releases the value without waiting: path {p0}", k.loc(0))
+
+
 def r20_5(ck, F):
     ck.rule("R20.5", "lazy blob: in the fetch future rx.set_max_data_size(len) with len = the advertised length dominates "
             "rx.recv(); the future is created only when the slot is empty; connection / receive errors map to FetchError",
@@ -159,6 +209,56 @@ def r20_5(ck, F):
               f"fetch chain has {tries} `?` sites / errors {errs}", k.loc(0))
 
 
+def r20_5b(ck, F):
+    ck.rule("R20.5b", "cut-short transfer is an error: the Option returned by rx.recv() in the fetch future is consumed only "
+            "by ok_or / ok_or_else (None -> FetchError) or by a match whose None arm cannot reach an Ok result; the cached "
+            "result of a Clone-able lazy value is emptied (MaybeDone::take_output) only under Arc::try_unwrap == Ok",
+            "a port closed before the data arrived yields Ok(empty) instead of FetchError::Dropped; into_inner on one "
+            "clone of a LazyBlob empties the cache under the other clones", floor=2)
+    fam = F.family("robj::lazy_blob::LazyBlob::fetch")
+    task = [x for x in fam if x.kind == "coroutine" and list(x.calls("chmux::receiver::Receiver::set_max_data_size"))]
+    if not task:
+        raise mir.AnchorMissing("fetch future of LazyBlob::fetch")
+    k = task[0]
+    consumers, bad = [], []
+    for bb, t in k.calls():
+        fn = t["fn"]
+        if fn.get("self_adt") == "std::option::Option" and "DataBuf" in (fn.get("self_ty") or "") and t["a"] and \
+                mir.calls_in(k.expr(t["a"][0]), "chmux::receiver::Receiver::recv"):
+            consumers.append(callee(t))
+            if callee(t) not in ("std::option::Option::ok_or", "std::option::Option::ok_or_else"):
+                bad.append((callee(t), bb))
+    for sb, tb, m, e in switch_edges(k, lambda e: e[0] == "discr" and mir.calls_in(e, "chmux::receiver::Receiver::recv") and
+                                     "Option" in str(e)):
+        if m == "None" or (isinstance(m, tuple) and "None" in m):
+            consumers.append("match")
+            oks = [x for x, i, v in k.result_stores("Ok")]
+            if k.find_path([tb], oks, avoid=[sb]):
+                bad.append(("match None -> Ok", sb))
+    ck.expect(bool(consumers) and not bad, "LazyBlob::fetch#none-is-error", f"recv() result consumed by {sorted(set(consumers))}",
+              f"the None result of rx.recv() (transfer cut short) does not become an error: {bad or 'no consumer found'}",
+              k.loc(bad[0][1]) if bad else k.loc(0))
+    # cached results shared by clones
+    n = 0
+    for adt, mod in (("robj::lazy_blob::LazyBlob", "robj::lazy_blob::LazyBlob::"), ("robj::lazy::Lazy", "robj::lazy::Lazy::")):
+        cl = F.has_impl(adt, "std::clone::Clone")
+        for b in F.by_dp.values():
+            if b.crate != "remoc" or not mir.strip_generics(b.path).startswith(mod):
+                continue
+            for bb, t in b.calls("futures::future::MaybeDone::take_output"):
+                n += 1
+                if not cl:
+                    ck.ok(f"{adt.split('::')[-1]}#take-output@{mir.strip_generics(b.path)}", "type is not Clone: the cache has one owner")
+                    continue
+                ce = [(switch_expr(b, s), switch_meaning(b, s, v)) for s, tb, v in controlling_edges(b, bb)]
+                uniq = any(e[0] == "discr" and mir.calls_in(e, "std::sync::Arc::try_unwrap") and m == "Ok" for e, m in ce)
+                ck.expect(uniq, f"{adt.split('::')[-1]}#take-output@{mir.strip_generics(b.path)}", "take_output only when the Arc is unique",
+                          f"{mir.strip_generics(b.path)} empties the fetch cache shared with clones (take_output not guarded by "
+                          f"Arc::try_unwrap == Ok): another clone then panics / sees no data", b.loc(bb))
+    if n == 0:
+        raise mir.AnchorMissing("MaybeDone::take_output in lazy / lazy_blob")
+
+
 def run(ck, F):
-    for r in (r20_1, r20_2, r20_3, r20_4, r20_5):
+    for r in (r20_1, r20_2, r20_3, r20_4, r20_4b, r20_5, r20_5b):
         ck.run_rule(r)
